@@ -92,7 +92,13 @@ def build_project(root: Path, codemod_ids, rendered, extra_files=None):
         files[rel] = rd["data"]
         if rd.get("results"):
             opt = tool_option(case["codemod"])
-            docs_by_tool.setdefault(opt, []).append(progspace.shift_doc(rd["results"], 0, 0, rel))
+            doc = progspace.shift_doc(rd["results"], 0, 0, rel)
+            if rd.get("sonar_project_key") and progspace.doc_format(doc) == "sonar":
+                # Sonar components are `<project key>:<path>`; the key itself may contain colons (com.acme:shop)
+                for e in (doc.get("issues") or []) + (doc.get("hotspots") or []):
+                    if e.get("component") == rel:
+                        e["component"] = rd["sonar_project_key"] + ":" + rel
+            docs_by_tool.setdefault(opt, []).append(doc)
     if extra_files:
         files.update(extra_files)
     runner.write_tree(proj, files)
